@@ -66,10 +66,15 @@ Lin(t) ==
               \/ /\ pend[t].conc                                              \* refused by a race
                  /\ \E e \in Transient : Done(t, e)
                  /\ UNCHANGED <<att, param>>
+              \* ... or by the parameters of the connection that an overlapping call was still holding while it
+              \* left or was being refused itself (`param` keeps the parameters of the most recent connection)
+              \/ /\ pend[t].conc /\ param # 0 /\ param # ParamOf(a)
+                 /\ Done(t, "IncompatibleBufferSize")
+                 /\ UNCHANGED <<att, param>>
          [] a \in {"s", "r"} ->       \* orderly detach of my handle (result "none": no handle, no-op)
               \/ /\ pend[t].had
                  /\ att' = att \ {role}
-                 /\ param' = IF att \ {role} = {} THEN 0 ELSE param
+                 /\ param' = param        \* kept: see the attach case
                  /\ Done(t, "ok")
               \/ /\ ~pend[t].had
                  /\ Done(t, "none")
@@ -80,7 +85,7 @@ Lin(t) ==
          [] a \in {"fs", "fr"} ->     \* forced removal on behalf of a dead peer
               \/ /\ att # {}
                  /\ att' = att \ {role}
-                 /\ param' = IF att \ {role} = {} THEN 0 ELSE param
+                 /\ param' = param        \* kept: see the attach case
                  /\ Done(t, "ok")
               \/ /\ att = {}
                  /\ Done(t, "DoesNotExist")
